@@ -133,7 +133,7 @@ FAIL_KINDS = ["recreate_bad_kwarg", "recreate_small_n", "interp_bad_method", "ma
 
 def gen_fail_op(rng):
     """a request that must be refused; the program goes on afterwards (an application that catches the error)"""
-    return {"op": "fail", "kind": rng.choice(FAIL_KINDS), "n": rng.randint(2, 4)}
+    return {"op": "fail", "kind": rng.choice(FAIL_KINDS), "n": rng.randint(2, 4), "small": rng.randrange(9)}
 
 
 def gen_poke_op(rng):
@@ -268,6 +268,14 @@ def apply_op(w, op, rng_state=None):
             raise Skip()
         if k in ("recreate", "repeat") and len(x) * (op.get("n", 1) * op.get("r", 1)) > 4000:
             raise Skip()
+        if k in ("norm_x", "norm_y"):
+            # normalising a series in which one reading lies ~1e17 above the rest squeezes the rest into a few units in
+            # the last place of each other; what later operations make of those is rounding, not comparable with the
+            # exact model (a limit of the float-vs-exact correspondence, not of the library)
+            for a_ in (w.y, w.reference_y, w.original_y) if k == "norm_y" else (w.x, w.reference_x, w.original_x):
+                v_ = np.unique(np.asarray(a_, dtype=float))
+                if len(v_) > 2 and np.all(np.isfinite(v_)) and (v_[-1] - v_[0]) > 1e10 * np.min(np.diff(v_)):
+                    raise Skip()
     if k == "fail":
         from traffic_weaver.rfa import LinearFixedRFA
         kind = op["kind"]
@@ -279,7 +287,8 @@ def apply_op(w, op, rng_state=None):
                 if kind == "recreate_bad_kwarg":
                     w.recreate_from_average(op.get("n", 2), rfa_class=LinearFixedRFA, beta=0.5)
                 elif kind == "recreate_small_n":
-                    w.recreate_from_average(1)
+                    # below 2 in every spelling: integers, and fractional factors that would round up to 2 (450 / 300)
+                    w.recreate_from_average([1, 1, 0, -3, 1.5, 1.75, np.float64(1.6), float(np.nextafter(2.0, 0.0)), 450 / 300][op.get("small", 0) % 9])
                 elif kind == "interp_bad_method":
                     w.interpolate(n=7, method="quadratic")
                 elif kind == "match_bad_rule":
@@ -431,7 +440,7 @@ def apply_op(w, op, rng_state=None):
             w.recreate_from_average(n, rfa_class=cls, **kw)
             return line
         if s == "pc" or n < 2:
-            line = f"wop recreate {s if s in R.WINDOW or s == 'pc' else 'pc'} 1 {n} - - - -"
+            line = f"wop recreate {s if s in R.WINDOW or s == 'pc' else 'pc'} 1 {math.floor(n)} - - - -"   # a fractional factor below 2 is below 2
             op["_line"] = line
             w.recreate_from_average(n, rfa_class=cls, **kw)
             return line
